@@ -17,8 +17,32 @@ Fixpoint tsize (e : texpr) : nat :=
   | XIf c t f => S (tsize c + tsize t + tsize f)
   | XList es => S (list_sum (map tsize es))
   | XStruct _ fields => S (list_sum (map (fun fe => tsize (snd fe)) fields))
+  | XInterp _ items => S (list_sum (map (fun it => tsize (fst (fst it))) items))
   | _ => 1
   end.
+
+Lemma tsize_in_items : forall (a : texpr) f s items, In (a, f, s) items ->
+  tsize a <= list_sum (map (fun it : texpr * option str * str => tsize (fst (fst it))) items).
+Proof.
+  induction items; simpl; intros H; [tauto|]. destruct H as [->|H]; [simpl; lia|]. specialize (IHitems H). lia.
+Qed.
+
+Lemma echo_interp : forall m s0 items,
+  echo_tree m (XInterp s0 items)
+  = SInterp (c_quote :: escape_numbat_string s0 ++ [123%N]) (echo_items (echo_tree Plain) items).
+Proof.
+  intros m s0 items. cbn [echo_tree]. f_equal.
+  induction items as [|[[a f] s] r IH]; [reflexivity|]. cbn [echo_items]. rewrite <- IH. reflexivity.
+Qed.
+
+Lemma echo_items_wf : forall items,
+  (forall a f s, In (a, f, s) items -> wf (echo_tree Plain a) = true) ->
+  forallb (fun it : sx * option str * str => wf (fst (fst it))) (echo_items (echo_tree Plain) items) = true.
+Proof.
+  induction items as [|[[a f] s] r IH]; intros H; [reflexivity|].
+  cbn [echo_items forallb fst]. rewrite (H a f s (or_introl eq_refl)).
+  rewrite IH; [reflexivity|]. intros b g t Hb. apply (H b g t). right. exact Hb.
+Qed.
 
 Lemma tsize_in : forall (a : texpr) args, In a args -> tsize a <= list_sum (map tsize args).
 Proof.
@@ -245,6 +269,14 @@ Proof.
       pose proof (lvl_liberal a0). rewrite !leb_intro by lia. reflexivity.
   - destruct m; reflexivity.
   - destruct m; reflexivity.
+  - (* XInterp *)
+    rewrite echo_interp. cbn [wf]. simpl in Hp.
+    destruct items as [|it items']; [discriminate|].
+    assert (G : forallb (fun it0 : sx * option str * str => wf (fst (fst it0)))
+                  (echo_items (echo_tree Plain) (it :: items')) = true).
+    { apply echo_items_wf. intros a f s Ha. apply IHn; [pose proof (tsize_in_items a f s _ Ha); lia|].
+      eapply forallb_forall in Hp; [|exact Ha]. exact Hp. }
+    destruct it as [[a f] s]. cbn [echo_items] in *. exact G.
   - (* XIf *)
     simpl in Hp. apply andb_prop in Hp. destruct Hp as [Hp H3]. apply andb_prop in Hp. destruct Hp as [H1 H2].
     pose proof (IHn e1 ltac:(lia) H1 Parens) as W1. pose proof (IHn e2 ltac:(lia) H2 Parens) as W2.
@@ -347,6 +379,16 @@ Proof.
     destruct (conversion_sugar name) as [s|]; [discriminate|exact Generic].
   - destruct m; reflexivity.
   - destruct m; cbn [echo_tree desugar erase]; rewrite string_escape_roundtrip; reflexivity.
+  - (* XInterp *)
+    rewrite echo_interp. cbn [desugar erase]. rewrite string_escape_roundtrip_delim. simpl in Hx.
+    f_equal. f_equal. f_equal.
+    assert (HA : forall a f s, In (a, f, s) items -> desugar (echo_tree Plain a) = erase a).
+    { intros a f s Ha. apply IHn; [pose proof (tsize_in_items a f s _ Ha); lia|].
+      eapply forallb_forall in Hx; [|exact Ha]. exact Hx. }
+    clear - HA. induction items as [|[[a f] s] r IH]; [reflexivity|].
+    cbn [echo_items flat_map fst snd]. rewrite string_escape_roundtrip_delim.
+    rewrite (HA a f s (or_introl eq_refl)). rewrite IH; [reflexivity|].
+    intros b g t Hb. apply (HA b g t). right. exact Hb.
   - (* XIf *)
     simpl in Hx. apply andb_prop in Hx. destruct Hx as [Hx H3]. apply andb_prop in Hx. destruct Hx as [H1 H2].
     pose proof (IHn e1 ltac:(lia) H1 Parens) as D1. pose proof (IHn e2 ltac:(lia) H2 Parens) as D2.
